@@ -70,3 +70,9 @@ claim("C03", "post-condition monitor on compute_reproject_roi: brute force over 
       "uniform scale (similarity) or bracketed by Jacobian singular values, read_shrink integer >=1 not exceeding scale by more than 1e-3, reported transform cross-checked. ~3.7e3 pairs "
       "quick / 7e4 thorough over 10 same-CRS families x placements x padding/align and 10 CRSs.",
       _TB + " compute_reproject_roi has no caller inside odc-geo, so only direct calls are observed.", "DESIGN.md 5/C03")
+
+claim("C10", "differential monitor: numpy paste of the planned regions vs GDAL nearest-neighbour warp through the real rio_reproject, bit for bit, per dtype; paste_ok vs generator labels",
+      "Every paste-able pair with read_shrink 1 is executed both ways for 8 dtypes (incl. the int8/bool detour, explicit and default nodata) and compared exactly; for larger shrink factors the "
+      "source region must be the destination region times the factor; paste_ok must agree with how the pair was built (integer scale and whole-pixel shift within ttol/stol on either side of "
+      "the tolerance, per axis; never for rotation/shear/fractional scale). ~1.8e3 pairs and ~9e3 warps quick, 3e4 / 1.5e5 thorough.",
+      _TB + " GDAL is the reference warper; only binary-exact grids so ties cannot occur.", "DESIGN.md 5/C10")
